@@ -96,6 +96,7 @@ func init() {
 		Level: "exploration",
 		Rule: "every string over {a, n, t, \", \\, space, é, LF, TAB, CR, FF} up to length 4 (quick) / 6 (thorough, 1948717 strings; exhaustive) plus random strings to length 12: lit(s) escapes backslash and double quote and writes the four control characters as \\n \\t \\r \\f. " +
 			"Oracles: ParseZqlString(lit(s)) == s; over rows holding s and its confusables (escape sequences decoded / not decoded / doubled, quotes trimmed, ...) the filters f = lit, f != lit, f in [lit], f in [lit, \"\"] / [\"\", lit] / [other, lit], f not in [lit, \"\"], f contains lit, the same comparisons on a map element (any-type symbol), anyOf(tags) = lit (seek path) and anyOf(tags) != lit " +
+			"and families of look-alike lists ([\"a, b\"] / [\"a\", \"b\"] / [\"b\", \"a\"], [\"x\", \"y, z\"] / [\"x, y\", \"z\"], elements holding quote-comma-quote, [\"mn\"] / [\"m\", \"n\"], duplicates), each list parsed after its look-alikes in the same process in two orders, under in / not in / map element in / anyOf in, " +
 			"must select exactly the rows the string semantics selects, evaluated through package ast over an in-memory symbol table and (sampled) through a bolt store. non-trivial = distinct strings that contain at least one of backslash, quote or a control character",
 		Assumptions: []string{"the literal spelling is the one the statement describes; other spellings (raw control characters) are not sentences"},
 		Exhaustive:  func(t core.Tier) bool { return true },
@@ -238,6 +239,110 @@ func runC11(c *core.Ctx, idx int) {
 		}
 		if c.WantSample() && special && len(s) >= 3 {
 			c.Sample(map[string]any{"s": s, "literal": lit, "confusable_rows": len(cands) - 1})
+		}
+	}
+	if idx >= nChunks {
+		for round := 0; round < 2; round++ {
+			c11Lists(c, tbl, db, st, round+idx)
+		}
+	}
+}
+
+// c11ListFamilies: lists of literals which read alike once their structure is flattened (joined by ", ", concatenated,
+// quotes dropped, order ignored). Each list denotes exactly its own elements, whichever look-alike was parsed before it
+// in the same process.
+var c11ListFamilies = [][][]string{
+	{{"a, b"}, {"a", "b"}, {"b", "a"}, {"b, a"}, {"a,b"}, {"a", " b"}},
+	{{"x", "y, z"}, {"x, y", "z"}, {"x", "y", "z"}, {"x, y, z"}, {"z", "y", "x"}},
+	{{`p", "q`}, {"p", "q"}, {`p"`, `"q`}, {`p\", \"q`}},
+	{{"mn"}, {"m", "n"}, {"", "mn"}, {"m", "", "n"}, {"mn", ""}},
+	{{"k", "k"}, {"k"}, {"k, k"}, {"kk"}},
+}
+
+func c11Lists(c *core.Ctx, tbl *memsym.Table, db *boltz.DbImpl, st *schema.St, round int) {
+	for fi, fam := range c11ListFamilies {
+		// the rows: every element of every list of the family
+		seen := map[string]bool{}
+		var rows []string
+		for _, l := range fam {
+			for _, e := range l {
+				if !seen[e] {
+					seen[e] = true
+					rows = append(rows, e)
+				}
+			}
+		}
+		err := db.Update(nil, func(ctx boltz.MutateContext) error {
+			ids, _, _ := st.Store.QueryIds(ctx.Tx(), "true")
+			for _, id := range ids {
+				if err := st.Store.DeleteById(ctx, id); err != nil {
+					return err
+				}
+			}
+			for i, row := range rows {
+				tags := []string{"zz"}
+				if row != "" {
+					tags = append(tags, row)
+				}
+				if err := st.Store.Create(ctx, &schema.Ent{Id: fmt.Sprintf("r%02d", i), Typ: "strs", V: map[string]any{"f": row, "tags": tags, "mp": map[string]any{"k": row}}}); err != nil {
+					return err
+				}
+			}
+			return nil
+		})
+		if err != nil {
+			c.Violationf("C11 bolt setup failed", fam, "%v", err)
+			return
+		}
+		order := make([]int, len(fam))
+		for i := range order {
+			order[i] = (i*(1+round%2*2) + round) % len(fam) // another order per round
+		}
+		for _, li := range order {
+			l := fam[li]
+			var lits []string
+			in := map[string]bool{}
+			for _, e := range l {
+				lits = append(lits, ql.Lit(e))
+				in[e] = true
+			}
+			list := "[" + strings.Join(lits, ", ") + "]"
+			for _, form := range []struct {
+				name, text string
+				neg        bool
+			}{{"in", "f in " + list, false}, {"not in", "f not in " + list, true}, {"map element in", "mp.k in " + list, false}, {"anyOf in", "anyOf(tags) in " + list, false}} {
+				info := map[string]any{"query": form.text, "list": fmt.Sprintf("%q", l), "family": fi, "rows": fmt.Sprintf("%q", rows)}
+				c.Count("list_queries", 1)
+				if form.name != "anyOf in" {
+					query, err := ast.Parse(tbl, form.text)
+					c.Eval()
+					if err != nil {
+						c.Violationf("C11 list of literals rejected ("+form.name+")", info, "%v", err)
+						continue
+					}
+					for _, cand := range rows {
+						row := memsym.NewRow(tbl)
+						row.Vals["f"], row.Vals["mp.k"] = cand, cand
+						if got, want := query.EvalBool(row), in[cand] != form.neg; got != want {
+							c.Violationf("C11 a list of literals denotes other strings than its elements ("+form.name+")", info, "row %q: got %v want %v", cand, got, want)
+						}
+					}
+				}
+				_ = db.View(func(tx *bbolt.Tx) error {
+					ids, _, err := st.Store.QueryIds(tx, form.text)
+					c.Eval()
+					var want []string
+					for i, cand := range rows {
+						if (in[cand] != form.neg) && !(form.name == "anyOf in" && cand == "") {
+							want = append(want, fmt.Sprintf("r%02d", i))
+						}
+					}
+					if err != nil || fmt.Sprint(ids) != fmt.Sprint(want) {
+						c.Violationf("C11 bolt store: a list of literals denotes other strings than its elements ("+form.name+")", info, "got %v err=%v want %v", ids, err, want)
+					}
+					return nil
+				})
+			}
 		}
 	}
 }
